@@ -232,6 +232,15 @@ fn check_repl(case: &Json, stats: &mut Stats) -> Verdict {
                 if rs != bs {
                     return fail("C17:repl:last-result", format!("after `{prefix}`\n  batch result:       {bs}\n  incremental result: {rs} (input {k}: `{text}`)"));
                 }
+                // nothing but the names the inputs declare is bound on either route
+                for n in ["ans", "_", "it", "last", "result", "res", "self", "this", "out", "value", "tmp", "prev", "__"] {
+                    if !names.iter().any(|x| x == n) && repl.get_variable(n).is_some() != batch.get_variable(n).is_some() {
+                        return fail(
+                            "C17:repl:undeclared-name",
+                            format!("after `{prefix}` the name `{n}`, which no input declares, is {} on the incremental route and {} on the batch route", if repl.get_variable(n).is_some() { "bound" } else { "unbound" }, if batch.get_variable(n).is_some() { "bound" } else { "unbound" }),
+                        );
+                    }
+                }
                 let (rstate, bstate) = (state(&repl, &names), state(&batch, &names));
                 if rstate != bstate {
                     return fail(
@@ -304,7 +313,7 @@ fn check_repl(case: &Json, stats: &mut Stats) -> Verdict {
 /// value, nothing for an input that is rejected or fails (the message goes to stderr), and the
 /// session goes on after a failure. Renderings in which only the order of struct fields or union
 /// members may differ are compared as multisets of characters.
-fn check_repl_executable(case: &Json, stats: &mut Stats) -> Verdict {
+pub(crate) fn check_repl_executable(case: &Json, stats: &mut Stats) -> Verdict {
     use std::io::{Read, Write};
     let Some(bin) = std::env::var("VERIF_SIMPLESL_BIN").ok().filter(|b| !b.is_empty() && std::path::Path::new(b).exists()) else {
         stats.label("REPL executable not built: route skipped");
@@ -674,6 +683,34 @@ pub fn run(session: &Session) -> i32 {
             }
         }
         }
+    }
+    // the same input several times in a row (each time it means what it means then), inputs whose later
+    // statement fails after an earlier one of the same input has run, and variables with names a console
+    // might be tempted to use itself
+    for inputs in [
+        vec!["a := 0; b := 1;", "(a, b) := (b, a + b);", "(a, b) := (b, a + b);", "(a, b) := (b, a + b);", "(a, b)"],
+        vec!["x := 1;", "x := x * 2;", "x := x * 2;", "x := x * 2;", "x"],
+        vec!["c := mut 0;", "c += 1;", "c += 1;", "c += 1;", "*c"],
+        vec!["s := \"a\";", "s := s + s;", "s := s + s;", "s"],
+        vec!["it := [1, 2, 3]~;", "it()", "it()", "it()", "it()"],
+        vec!["n := 1;", "f := () -> int { return n; };", "n := n + 1;", "f := () -> int { return n; };", "n := n + 1;", "f()"],
+        vec!["zero := mut 0; x := 1;", "x := 2; y := 1 / *zero;", "x"],
+        vec!["zero := mut 0; f := () -> int { return 1; };", "f := () -> int { return 2; }; y := [1][5 + *zero];", "f()"],
+        vec!["zero := mut 0; c := mut 5;", "c += 1; d := 1 % *zero; c += 100;", "*c"],
+        vec!["zero := mut 0; x := 1;", "x := 2; y := 1 / *zero; x := 3;", "x", "y := 7;", "(x, y)"],
+        vec!["ans := 10;", "b := ans + 1;", "ans"],
+        vec!["last := \"l\"; result := 1; it := 2;", "q := result + it;", "(last, result, it, q)"],
+        vec!["_ := 5;", "k := _ + 1;", "(_, k)"],
+        vec!["1 + 1", "ans := 5;", "2 + 2", "ans"],
+    ] {
+        let items: Vec<Json> = inputs
+            .iter()
+            .map(|t| {
+                let names: Vec<String> = t.split(';').filter_map(|st| st.trim().split_once(" := ").map(|(n, _)| n.trim().to_string())).filter(|n| !n.contains('(') && !n.contains(' ')).collect();
+                json!({"declares": names, "text": t})
+            })
+            .collect();
+        cases.push(json!({"kind": "repl", "files": {}, "inputs": items, "binary": true}));
     }
     // recorded finding: the empty array literal carries the element type `!` wherever it flows, so a later
     // REPL input (which sees the value, not the declared type) sums it as ints
